@@ -234,7 +234,8 @@ def _ind(s, n=1):
 C16_ATOMS = ["effect()", "return", "return effect()", "raise E()", "break", "continue", "pass", "assert cond()",
              "assert False", "assert True", "assert 7000 > 7001", "x = effect()", "assert 0, effect()"]
 C16_TESTS = ["cond()", "True", "False", "7000 > 7001", "p > 0", "1 > 2", "not cond()", "7000"]
-C16_ITERS = ["seq()", "(1, 2)", "()", "range(7002)", "[]", "[effect()]"]
+C16_ITERS = ["seq()", "(1, 2)", "()", "range(7002)", "[]", "[effect()]", "zip()", "zip([1, 2], [])", "reversed([])", "enumerate(())",
+             "iter('')", "filter(None, [0, ''])", "'ab'", "{1: 2}", "range(2, 2)"]
 
 
 def _c16_compounds(bodies, tests, iters, with_else=True):
@@ -254,6 +255,12 @@ def _c16_compounds(bodies, tests, iters, with_else=True):
             for t in tests[:5]:
                 yield "if %s:\n%s\nelse:\n%s" % (t, _ind(b1), _ind(b2))
             yield "while cond():\n%s\nelse:\n%s" % (_ind(b1), _ind(b2))
+            yield "while False:\n%s\nelse:\n%s" % (_ind(b1), _ind(b2))
+            yield "while 7000 > 7001:\n%s\nelse:\n%s" % (_ind(b1), _ind(b2))
+            yield "if cond():\n%s\nelif 1:\n%s\nelse:\n%s" % (_ind(b1), _ind(b2), _ind(b1))
+            yield "if cond():\n%s\nelif 0:\n%s\nelse:\n%s" % (_ind(b1), _ind(b2), _ind(b2))
+            yield "if 7000 > 7001:\n%s\nelif cond():\n%s\nelse:\n%s" % (_ind(b1), _ind(b2), _ind(b1))
+            yield "for _ in zip():\n%s\nelse:\n%s" % (_ind(b1), _ind(b2))
             yield "while True:\n%s\nelse:\n%s" % (_ind(b1), _ind(b2))
             yield "for _ in seq():\n%s\nelse:\n%s" % (_ind(b1), _ind(b2))
             yield "for _ in (1, 2):\n%s\nelse:\n%s" % (_ind(b1), _ind(b2))
@@ -280,7 +287,24 @@ def seq():
 '''
 
 
+def _hid(prefix, text):
+    import hashlib
+
+    return "%s/%s" % (prefix, hashlib.sha1(text.encode()).hexdigest()[:10])
+
+
 def c16_shapes(tier="quick"):
+    """ids are content hashes (stable when the family is extended)."""
+    seen, out = set(), []
+    for sid, shape in _c16_shapes(tier):
+        h = _hid(sid.split("/")[0], shape)
+        if h not in seen:
+            seen.add(h)
+            out.append((h, shape))
+    return out
+
+
+def _c16_shapes(tier="quick"):
     """Statement shapes of nesting <= 2 (quick) / 3 (thorough-sample)."""
     level0 = list(C16_ATOMS)
     bodies1 = level0 + ["effect()\n" + b for b in ("return", "break", "continue", "effect()", "raise E()")]
@@ -405,5 +429,5 @@ def c16_pointless_skeletons():
                 continue
             text = (prelude(4) + C16_PRELUDE_EXTRA + C16_EXPR_PRELUDE
                     + "def main(a):\n    %s\n    return a\n\n\nprint(main(inp()))\n" % body)
-            yield Skeleton("pointless/%d/%s:%s" % (i, pos, e.replace("\n", "\\n")), text, tape=4, fuel=300,
+            yield Skeleton("pointless/%s/%s:%s" % (_hid("p", e).split("/")[1][:6], pos, e.replace("\n", "\\n")), text, tape=4, fuel=300,
                            lits={7000: (0, BIG)} if "7000" in e else {})
